@@ -44,11 +44,18 @@ def draw_request(rng, mesh, thick, fixed=None):
     req["origin_unit"] = str(rng.choice([req["pos_unit"], req["pos_unit"], "cm", "au"]))
     # direction
     if ndim == 3:
-        dm = fixed.get("dir_mode") or str(rng.choice(["letter", "letter", "triple", "vector", "vector", "vector-zero"]))
+        dm = fixed.get("dir_mode") or str(rng.choice(["letter", "letter", "triple", "vector", "vector", "vector-zero",
+                                                      "vector-axis"]))
         if dm == "letter":
             req["direction"] = str(rng.choice(list("xyzXZ")))
         elif dm == "triple":
             req["direction"] = str(rng.choice(["xyz", "xzy", "yxz", "yzx", "zxy", "zyx"]))
+        elif dm == "vector-axis":
+            # a normal Vector that happens to lie exactly along a coordinate axis: osyris completes it with in-plane
+            # vectors of its own choice (rotated about the axis), unlike the axis letter
+            v = np.zeros(3)
+            v[int(rng.integers(0, 3))] = float(rng.choice([-1.0, 1.0])) * 10.0 ** float(rng.uniform(-2, 2))
+            req["direction"] = [float(x) for x in v]
         elif dm == "vector":
             req["direction"] = [float(x) for x in rng.normal(size=3)]
         else:
@@ -131,6 +138,10 @@ def draw_request(rng, mesh, thick, fixed=None):
             r = req["resolution"]
             req["resolution"] = dict(r if isinstance(r, dict) else {"x": r, "y": r}, z=int(rng.integers(1, 20)))
         req["dz_unit"] = str(rng.choice(LENGTH_UNITS))
+        if "operation" not in fixed and rng.random() < 0.3:
+            req["op_on_layer"] = True
+            sumlike = req["operation"] in ("sum", "nansum")
+            req["call_operation"] = [None, "mean" if sumlike else "sum", "max" if sumlike else "nansum"][int(rng.integers(0, 3))]
     return req
 
 
@@ -145,9 +156,13 @@ def run_map(osy, rng, res, mesh, req, thick, known_note=""):
     pu, box = req["pos_unit"], req["box"]
     dg = mo.build_group(osy, mesh, pu, box, rng)
     layers = []
+    # thick maps: the reduction may also be set on the layers themselves, the call then names another one (or none):
+    # each layer is reduced, scaled by the depth step and given its unit according to ITS operation
+    op_on_layer = bool(thick and req.get("op_on_layer"))
     for spec in req["layers"]:
         name, _, mode = spec.partition(":")
-        layers.append(dg.layer(name, mode=mode) if mode else dg.layer(name))
+        lkw = {"operation": req["operation"]} if op_on_layer else {}
+        layers.append(dg.layer(name, mode=mode, **lkw) if mode else dg.layer(name, **lkw))
     f_o = unit_factor(osy, pu, req["origin_unit"])
     origin_sp = np.array(req["origin"]) * box                     # in position units
     origin = osy.Vector(*[float(x * f_o) for x in origin_sp], unit=req["origin_unit"])
@@ -172,6 +187,12 @@ def run_map(osy, rng, res, mesh, req, thick, known_note=""):
         dz_sp = req["dz"] * box
         kw["dz"] = (dz_sp * unit_factor(osy, pu, req["dz_unit"])) * osy.units(req["dz_unit"])
         kw["operation"] = req["operation"]
+        if op_on_layer:
+            other = req.get("call_operation")
+            if other is None:
+                del kw["operation"]
+            else:
+                kw["operation"] = other
     with mo.MapSpy() as spy, quiet(), np.errstate(all="ignore"):
         import warnings
         with warnings.catch_warnings():
